@@ -424,6 +424,7 @@ pub fn run(o: Opts) -> i32 {
             .collect(),
     );
     let restarts: u64 = sv.workers.iter().map(|w| w.1.restarts).sum();
+    let slow: u64 = sv.workers.iter().map(|w| w.1.slow).sum();
     let j = J::obj(vec![
         ("property_id", J::s(&o.prop)),
         ("evaluations", J::I(evaluations as i64)),
@@ -435,6 +436,7 @@ pub fn run(o: Opts) -> i32 {
         ("traces_validated_against_impl", J::I(evaluations as i64)),
         ("histogram", hist_j),
         ("worker_restarts", J::I(restarts as i64)),
+        ("slow_replies_confirmed_on_retry", J::I(slow as i64)),
         ("unevaluated_after_circuit_breaker", J::I(breaker_skipped as i64)),
         ("samples", J::A(samples)),
         ("failures_total", J::I(total_fail as i64)),
